@@ -4,10 +4,7 @@
    implementation returned, and the canonical dump of all of its maps after the operation.
 
    code 1: the model's outcome or state differs from the implementation's.
-   code 2: the executable specification of the property rejects the implementation's dump.
-   The specification is evaluated while the history stays inside the hypothesis of the theorems
-   ([safe], evaluated on the implementation's own dump); a [CWitness] case evaluates it regardless (it
-   reproduces the known finding "stale delete after index reuse"). *)
+   code 2: the executable specification of the property rejects the implementation's dump. *)
 From Coq Require Import List NArith Bool.
 Import ListNotations.
 From NV Require Import lib.Corr gen.Consts_HostMap model.HostMap.
@@ -26,8 +23,7 @@ Record hstep := mkStep {
 }.
 
 Inductive case :=
-| CHist (steps : list hstep) (final : state)
-| CWitness (steps : list hstep) (final : state).
+| CHist (steps : list hstep) (final : state).
 
 Definition apply_delta {V} (d : list (N * option V)) (m : amap V) : amap V :=
   fold_left (fun m e => match snd e with Some v => mset (fst e) v m | None => mdel (fst e) m end) d m.
@@ -79,28 +75,24 @@ Definition spec29_step (o : op) (r : outcome) (p d : state) : bool :=
 
 (* ---- walking a history ------------------------------------------------------------------------------ *)
 
-Record wstate := mkW { w_model : state; w_prev : state; w_gone : list N; w_safe : bool }.
+Record wstate := mkW { w_model : state; w_prev : state; w_gone : list N }.
 
-Definition w0 : wstate := mkW init init [] true.
+Definition w0 : wstate := mkW init init [].
 
-Definition walk_step (which : N) (always : bool) (w : wstate) (st : hstep) : wstate * list N :=
+Definition walk_step (which : N) (w : wstate) (st : hstep) : wstate * list N :=
   let (m', rm) := step (s_op st) (w_model w) in
   let p := w_prev w in
   let d := dump_of p st in
-  let sf := w_safe w && safe (s_op st) p in
   let gone := w_gone w ++ newly_gone p d in
   let e1 := flag 1 (outcome_eqb rm (s_out st) && state_eqb m' d) in
-  let e2 :=
-    if sf || always then
-      flag 2 (if which =? 28 then spec28_step (s_op st) (s_out st) p d gone
-              else spec29_step (s_op st) (s_out st) p d)
-    else [] in
-  (mkW m' d gone sf, e1 ++ e2).
+  let e2 := flag 2 (if which =? 28 then spec28_step (s_op st) (s_out st) p d gone
+                    else spec29_step (s_op st) (s_out st) p d) in
+  (mkW m' d gone, e1 ++ e2).
 
-Fixpoint walk (which : N) (always : bool) (w : wstate) (l : list hstep) (final : state) : list N :=
+Fixpoint walk (which : N) (w : wstate) (l : list hstep) (final : state) : list N :=
   match l with
   | [] => flag 1 (state_eqb (w_prev w) final)     (* the reconstructed dump is the implementation's dump *)
-  | st :: r => let (w', e) := walk_step which always w st in e ++ walk which always w' r final
+  | st :: r => let (w', e) := walk_step which w st in e ++ walk which w' r final
   end.
 
 Definition dedup_codes (l : list N) : list N :=
@@ -108,8 +100,7 @@ Definition dedup_codes (l : list N) : list N :=
 
 Definition check_with (which : N) (c : case) : list N :=
   match c with
-  | CHist l f => dedup_codes (walk which false w0 l f)
-  | CWitness l f => dedup_codes (walk which true w0 l f)
+  | CHist l f => dedup_codes (walk which w0 l f)
   end.
 
 Definition check_case28 : case -> list N := check_with 28.
